@@ -15,7 +15,7 @@ def run(ctx):
     for k, v in counts["consts"].items():
         if v < 1000: raise Broken("lexer for %s found only %d constants" % (k, v))
     if counts["cython_protos"] < 50 or counts["fortran_protos"] < 100 or counts["pascal_protos"] < 120 or counts["header_functions"] < 100: raise Broken("prototype lexer drifted: %s" % counts)
-    ncmp = sum(counts["consts"].values()) + counts["cython_names"] + 5 * counts["family_constants"] + counts["cython_protos"] + counts["fortran_protos"] + counts["pascal_protos"] + counts["header_functions"] + counts["version_files"]
+    ncmp = sum(counts["consts"].values()) + counts["cython_names"] + 5 * counts["family_constants"] + counts["cython_protos"] + counts["fortran_protos"] + counts["pascal_protos"] + counts["idl_routines"] + counts["header_functions"] + counts["version_files"]
     ctx.evaluations = ncmp
     ctx.samples.append(counts)
     return verdict(ctx, "other", {
